@@ -16,7 +16,7 @@ def call_chain(body, names):
     return out
 
 
-@rule('P5', props=['C01', 'C02', 'C13', 'C04', 'C03'], floor=2, configs=('all', 'default'))
+@rule('P5', props=['C01', 'C02', 'C13', 'C04', 'C03', 'C05'], floor=2, configs=('all', 'default'))
 def p5_shape_change(prog):
     """Entry::add (component absent) and Entry::remove (component present): pop the row, look up / create
     the archetype whose identifier differs in exactly this component's bit, push the row there, store
